@@ -50,7 +50,7 @@ def _scf_eval(inp: Dict[str, Any]) -> Dict[str, Any]:
     if inp.get("max_iter"):
         S.MAX_ITER = int(inp["max_iter"])
     names = inp["names"]
-    sp = esh.settings(method=inp["method"], eps=inp["eps"], converger=inp["converger"], sp2=inp.get("sp2"), uhf=inp.get("uhf", False))
+    sp = esh.settings(method=inp["method"], eps=inp["eps"], converger=inp["converger"], sp2=inp.get("sp2"), uhf=inp.get("uhf", False), excited=inp.get("excited"))
     cap = {}
     orig = B.elec_energy
 
@@ -231,6 +231,9 @@ def gen_cases(ctx: Ctx):
               (["o2"], "MNDO", 1e-10, [1], "perturbed"), (["ch2o"], "AM1", 1e-11, [0, 0.5], "perturbed"), (["oh", "nh3"], "PM6_SP", 1e-9, [1], "perturbed")]
     for names, meth, e, conv, init in (ucases if ctx.thorough else ucases[:3]):
         cases.append({"names": names, "method": meth, "eps": e, "converger": conv, "uhf": True, "init": init, "seed": int(rng.integers(0, 10**6))})
+    # other options switched on next to a tight requested threshold must not loosen it (excited states bring their own tolerance)
+    for i, (names, meth, conv) in enumerate([(["ch2o"], "AM1", [1]), (["h2o"], "PM3", [0, 0.3]), (["hcn"], "MNDO", [2])][: (3 if ctx.thorough else 2)]):
+        cases.append({"names": names, "method": meth, "eps": float(rng.choice([1e-10, 1e-11])), "converger": conv, "excited": {"n_states": 2, "method": ["cis", "rpa"][i % 2]}})
     # batch mates with equal orbital count but different heavy/hydrogen split, also as the ACTIVE subset left mid-SCF (H2 converges first)
     for names in (["ch4", "co"], ["h2", "ch4", "co"], ["so2", "c2h4"]):
         cases.append({"names": names, "method": str(rng.choice(methods)), "eps": 1e-9, "converger": [[1], [0, 0.2]][int(rng.integers(0, 2))], "pad_to": max(len(esh.GEOMS[v][0]) for v in names)})
